@@ -614,6 +614,23 @@ class Connection(Suite):
                 return ("connection/unexpected-exception", f"request {i}: {x.get('exc')}: {x.get('text')}", None)
             if x["t"] > r["D"]:
                 return ("connection/deadline-exceeded", f"request {i} took {x['t']} ticks, timeout {r['D']}", {"max": r["D"]})
+            # completeness on one connection: a message bearing this request's id that arrived after
+            # every earlier request had finished (so nobody else can have read it) -- also BEFORE this
+            # request was written: a late answer to an earlier attempt with the same id -- and before this
+            # request's deadline is its answer
+            prev_end = 0 if i == 0 else o["reqs"][i - 1]["start"] + o["reqs"][i - 1]["t"]
+            mine = [(a, ev) for a, ev in case["stream"] if ev["k"] in ("resp", "err") and a > prev_end
+                    and H._idval(ev["id"], {}) == rid and type(H._idval(ev["id"], {})) is type(rid)]
+            earlier = any(ev["k"] in ("resp", "err") and a <= prev_end and H._idval(ev["id"], {}) == rid
+                          and type(H._idval(ev["id"], {})) is type(rid) for a, ev in case["stream"])
+            # (a message bearing the id that arrived while an earlier request was still running may or may
+            # not have been read by it: only the model can tell; the clause speaks when there is none)
+            if mine and not earlier and mine[0][0] < x["start"] + r["D"]:
+                a0, first = mine[0]
+                if first["k"] == "resp" and not (x["outcome"] == "returned" and x.get("p") == first["p"]):
+                    return ("connection/missed-response", f"request {i} (id {rid!r}, written at tick {x['start']}, timeout {r['D']}): the response {first} arrived at tick {a0}, after every earlier request had finished; outcome {x['outcome']} {x.get('p')!r}", {"outcome": "returned", "p": first["p"]})
+                if first["k"] == "err" and x["outcome"] != "raised":
+                    return ("connection/missed-error", f"request {i} (id {rid!r}): the error {first} arrived at tick {a0}; outcome {x['outcome']}", {"outcome": "raised"})
             if x["outcome"] == "returned":
                 src = [ev for _, ev in case["stream"] if ev["k"] == "resp" and ev["p"] == x.get("p")]
                 if not src or H._idval(src[0]["id"], {}) != rid or type(H._idval(src[0]["id"], {})) is not type(rid):
